@@ -264,8 +264,10 @@ TraceWFrom ==
     /\ UNCHANGED << b, sess, parsed, pairA >>
 
 C20_Fails(cur, p, r, fin, tb) ==
-    IF r.k = "panic" \/ tb.k = "panic" THEN {}
+    IF r.k = "panic" THEN {}
     ELSE IF RlLen(cur) > 4096 THEN {}           \* only writers well below their size limit
+    ELSE IF tb.k = "panic"                      \* (a panic is C03's; but a conversion that panics where the write succeeds
+         THEN (IF r.k = "ok" THEN {<< "C20", "to_bytes-panics-where-write_to-succeeds", p.ty >>} ELSE {})   \*  does not give the same encoding)
     ELSE IF Refused(p)
          THEN (IF r.k # "err" \/ fin # cur THEN {<< "C20", "oversized-value-not-refused-cleanly", p.ty >>} ELSE {})
               \cup (IF tb.k # "err" THEN {<< "C20", "to_bytes-of-oversized-value", p.ty >>} ELSE {})
